@@ -56,6 +56,10 @@ func (e1Engine) Gen(prop string, seed int64, tier string) *Plan {
 	if prop != "C11" && prop != "C19" && chance(r, 35) {
 		p.Cfg["narrow"] = 1
 	}
+	// "wide" plans: a collection with more than twenty fields (two-digit short field ids)
+	if (prop == "C04" || prop == "C01" || prop == "C02") && chance(r, 20) {
+		p.Cfg["wide"] = 1
+	}
 	nops := 4 + r.IntN(27)
 	if tier == "quick" {
 		nops = 4 + r.IntN(20)
@@ -223,7 +227,7 @@ func (r *e1Run) run() {
 	// schema on every node (field order varies per node)
 	for i, nd := range r.nodes {
 		setRandStep(fmt.Sprintf("schema|%d", i))
-		sdl := userSDL(p.cfg("col", 0), p.cfg("sdlorder", 0)+i)
+		sdl := userSDLWide(p.cfg("col", 0), p.cfg("sdlorder", 0)+i, p.cfg("wide", 0) == 1)
 		cols, err := nd.DB.AddSchema(nd.reqCtx(), sdl)
 		if err != nil || len(cols) != 1 {
 			r.res.HarnessErr = fmt.Sprintf("AddSchema: %v", err)
@@ -704,6 +708,14 @@ func (r *e1Run) doCreate(step, node, slot int) {
 			}
 		}
 	}
+	if r.p.cfg("wide", 0) == 1 {
+		// the same fillers on every node that creates this slot (the genesis must be identical)
+		for k := 1; k <= wideFillers; k++ {
+			if (slot+k)%3 != 0 {
+				lits[fmt.Sprintf("w%02d", k)] = fmt.Sprintf("%q", fmt.Sprintf("s%d", slot))
+			}
+		}
+	}
 	nd := r.nodes[node]
 	q := fmt.Sprintf("mutation { create_User(input: %s%s) { _docID } }", inputLit(lits), r.encArgs(slot))
 	data, errs := nd.GQL(q)
@@ -838,6 +850,9 @@ func (r *e1Run) doUpdate(step, node, slot, fsel, vsel int) {
 		} else {
 			writes[f.Name] = v.Want
 		}
+	}
+	if r.p.cfg("wide", 0) == 1 && (vsel>>5)&1 == 1 {
+		lits[fmt.Sprintf("w%02d", 1+mod(vsel>>6, wideFillers))] = fmt.Sprintf("%q", fmt.Sprintf("u%d", step))
 	}
 	nd := r.nodes[node]
 	q := fmt.Sprintf("mutation { update_User(docID: %q, input: %s) { _docID } }", r.docIDs[slot], inputLit(lits))
